@@ -10,7 +10,7 @@ cp $WT/seed/demo.c $D/demo.c 2>/dev/null; cp $WT/seed/notes.txt $D/notes.txt 2>/
 S=$(mktemp -d /tmp/seedchk.XXXX)
 # with the change
 cp $WT/cJSON.c $WT/cJSON.h $WT/cJSON_Utils.c $WT/cJSON_Utils.h $S/
-SAN=""; grep -q "fsanitize" $D/notes.txt 2>/dev/null && SAN="-fsanitize=address,undefined -g"
+SAN=""; grep -q "fsanitize" $D/notes.txt 2>/dev/null && SAN="-fsanitize=address,undefined -g"; grep -q -- "--wrap=malloc" $D/notes.txt 2>/dev/null && SAN="-Wl,--wrap=malloc,--wrap=realloc,--wrap=free"
 ( cd $S && cc $SAN -I$S $D/demo.c cJSON.c cJSON_Utils.c -lm -o demo_mut 2>/dev/null; ./demo_mut >/dev/null 2>&1; echo $? > rc_mut )
 # without
 git -C $WT show HEAD:cJSON.c > $S/cJSON.c; git -C $WT show HEAD:cJSON_Utils.c > $S/cJSON_Utils.c
